@@ -30,11 +30,14 @@ CONSTANTS
     Conts,       \* subset of BOOLEAN: caller passed an error_handler
     MaxRec,      \* records / top-level entries
     Fuel,
-    Patterns,    \* mget: glob patterns below the searched directory "s", each a
+    Patterns,    \* mget: LISTS (1..3) of glob patterns below the directory "s", each a
                  \* sequence of segments [k |-> "w", v |-> <<"*">>] (wildcard) or
                  \* [k |-> "lit", v |-> <<"a">>] (run of literal components)
+    Recs,        \* mget: subset of BOOLEAN: recurse=
     Matches,     \* mget: {<<wildcard, name>>}: fnmatch(name, wildcard) holds
-    GlobFilter   \* mget: FALSE = SFTPGlob as written; TRUE = proposed repair
+    GlobFilter,  \* mget: TRUE = listed names with a separator are refused
+    CacheKeepsDots \* mget: FALSE = SFTPGlob as written; TRUE = (sensitivity) "."
+                 \* and ".." are dropped only while a listing is first read
 
 VARIABLES
     lfs,      \* local file system
@@ -187,10 +190,20 @@ ListingOf(top, path) ==
          IF c = {} THEN <<>> ELSE top[CHOOSE i \in c : \A j \in c : i <= j].sub
 DirEnt(top, path) == [name |-> path, type |-> "dir", t |-> <<>>,
                       sub |-> ListingOf(top, path)]
-Report(acc, np, e) == [acc EXCEPT !.names = Append(acc.names, [name |-> np, ent |-> e])]
+(* acc = [names, halt, matched, cache, multi, fail]:  names reported so far;   *)
+(* halt: the current match() raised; matched: the current pattern matched    *)
+(* something; cache: the directories whose listing SFTPGlob has cached (one   *)
+(* SFTPGlob object serves all patterns of a call); multi: several patterns   *)
+(* (duplicates are reported once); fail: some pattern ended in an error.     *)
+Report(acc, np, e) ==
+    IF acc.multi /\ \E i \in 1..Len(acc.names) : acc.names[i].name = np
+    THEN [acc EXCEPT !.matched = TRUE]
+    ELSE [acc EXCEPT !.names = Append(acc.names, [name |-> np, ent |-> e]),
+                     !.matched = TRUE]
+Dot(nm) == nm \in {<<".">>, <<"..">>}
 
 RECURSIVE GMatch(_, _, _, _)
-RECURSIVE GEntries(_, _, _, _, _, _)
+RECURSIVE GEntries(_, _, _, _, _, _, _)
 GMatch(top, acc, path, pl) ==
     IF acc.halt THEN acc
     ELSE LET seg == Head(pl)
@@ -203,32 +216,53 @@ GMatch(top, acc, path, pl) ==
           LET a0 == IF seg.v # <<"**">> THEN acc
                     ELSE IF rest # <<>> THEN GMatch(top, acc, path, rest)
                     ELSE Report(acc, path, DirEnt(top, path))
-          IN GEntries(top, a0, path, pl, ListingOf(top, path), 1)
-GEntries(top, acc, path, pl, list, i) ==
+              r == GEntries(top, a0, path, pl, ListingOf(top, path), 1,
+                            path \in a0.cache)
+          IN IF r.halt THEN r ELSE [r EXCEPT !.cache = r.cache \cup {path}]
+(* replay: this listing comes from the cache.  As written "." and ".." are   *)
+(* skipped by the matcher on every scan; CacheKeepsDots is the variant that  *)
+(* drops them only while the listing is first read, so a replayed listing    *)
+(* still holds them.                                                         *)
+GEntries(top, acc, path, pl, list, i, replay) ==
     IF acc.halt \/ i > Len(list) THEN acc
     ELSE LET e == list[i]
              seg == Head(pl)
              rest == Tail(pl)
              np == Join(path, e.name) IN
-      IF e.name \in {<<".">>, <<"..">>} THEN GEntries(top, acc, path, pl, list, i + 1)
+      IF Dot(e.name) /\ ~(CacheKeepsDots /\ replay)
+      THEN GEntries(top, acc, path, pl, list, i + 1, replay)
       ELSE IF GlobFilter /\ Len(e.name) > 1 THEN [acc EXCEPT !.halt = TRUE]
       ELSE IF <<seg.v, e.name>> \notin Matches
-           THEN GEntries(top, acc, path, pl, list, i + 1)
+           THEN GEntries(top, acc, path, pl, list, i + 1, replay)
       ELSE IF seg.v = <<"**">> /\ e.type = "dir"
-           THEN GEntries(top, GMatch(top, acc, np, pl), path, pl, list, i + 1)
+           THEN GEntries(top, GMatch(top, acc, np, pl), path, pl, list, i + 1, replay)
       ELSE IF rest # <<>>
            THEN GEntries(top, IF e.type = "dir" THEN GMatch(top, acc, np, rest) ELSE acc,
-                         path, pl, list, i + 1)
-      ELSE GEntries(top, Report(acc, np, e), path, pl, list, i + 1)
+                         path, pl, list, i + 1, replay)
+      ELSE GEntries(top, Report(acc, np, e), path, pl, list, i + 1, replay)
 
-Glob(top, pat) == GMatch(top, [names |-> <<>>, halt |-> FALSE], SrcDir, pat)
+(* glob.match() for every pattern of the list, one SFTPGlob object *)
+RECURSIVE GlobFrom(_, _, _, _)
+GlobFrom(top, acc, pats, i) ==
+    IF i > Len(pats) THEN acc
+    ELSE LET a1 == GMatch(top, [acc EXCEPT !.halt = FALSE, !.matched = FALSE],
+                          SrcDir, pats[i])
+         IN GlobFrom(top, [a1 EXCEPT !.fail = acc.fail \/ a1.halt \/ ~a1.matched],
+                     pats, i + 1)
+Glob(top, pats) ==
+    GlobFrom(top, [names |-> <<>>, halt |-> FALSE, matched |-> FALSE, cache |-> {},
+                   multi |-> Len(pats) > 1, fail |-> FALSE], pats, 1)
+NameSet(g) == {g.names[i].name : i \in 1..Len(g.names)}
 
 RECURSIVE CopyNames(_, _, _, _, _)
 CopyNames(acc, names, i, isdir, cont) ==
     IF i > Len(names) \/ ~acc.ok THEN acc
     ELSE LET nm == names[i].name
              d == IF isdir THEN Join(DestStr, <<Last(nm)>>) ELSE DestStr   \* basename
-         IN CopyNames(CopyAt(acc, d, names[i].ent, cont), names, i + 1, isdir, cont)
+             e == names[i].ent
+         IN IF e.type = "dir" /\ ~acc.rec          \* "... is a directory"
+            THEN CopyNames([acc EXCEPT !.ok = cont], names, i + 1, isdir, cont)
+            ELSE CopyNames(CopyAt(acc, d, e, cont), names, i + 1, isdir, cont)
 
 (* the whole mget for a listing: [fs, created, names, state] *)
 RunMget(c, top) ==
@@ -236,10 +270,10 @@ RunMget(c, top) ==
         f0 == InitFs(c.dest)
         isdir == c.dest = "dir"
         none == [fs |-> f0, created |-> {}, names |-> g.names, state |-> "aborted"]
-    IN IF (g.halt /\ ~c.cont) \/ g.names = <<>> \/ (Len(g.names) > 1 /\ ~isdir)
+    IN IF (g.fail /\ ~c.cont) \/ g.names = <<>> \/ (Len(g.names) > 1 /\ ~isdir)
        THEN none
-       ELSE LET r == CopyNames([fs |-> f0, created |-> {}, ok |-> TRUE, halt |-> FALSE],
-                               g.names, 1, isdir, c.cont)
+       ELSE LET r == CopyNames([fs |-> f0, created |-> {}, ok |-> TRUE, halt |-> FALSE,
+                                rec |-> c.rec], g.names, 1, isdir, c.cont)
             IN [fs |-> r.fs, created |-> r.created, names |-> g.names,
                 state |-> IF r.ok THEN "run" ELSE "aborted"]
 
@@ -253,7 +287,8 @@ MgetStep(e) ==
 -----------------------------------------------------------------------------
 Init ==
     /\ cfg \in [dest : DestKinds, cont : Conts,
-                 pat : IF Mode = "mget" THEN Patterns ELSE {<<>>}]
+                 pat : IF Mode = "mget" THEN Patterns ELSE {<<>>},
+                 rec : IF Mode = "mget" THEN Recs ELSE {TRUE}]
     /\ nrec = 0 /\ hist = <<>>
     /\ IF Mode = "mget" THEN
           LET r == RunMget(cfg, <<>>) IN      \* the empty listing
@@ -288,6 +323,13 @@ AllCreatedUnderDest == \A l \in created : Under(DestLoc, l)
 NameUnder(nm) == ~IsAbs(nm) /\ Under(SrcDir, NormFold(nm, <<>>, FALSE))
 GlobNamesUnderSearched ==
     Mode = "mget" => \A i \in 1..Len(stack) : NameUnder(stack[i])
+(* glob() never reports the "." / ".." entry of a directory, and a list of  *)
+(* patterns yields exactly the union of what each pattern yields alone      *)
+GlobNoDots == Mode = "mget" => \A i \in 1..Len(stack) : ~Dot(<<Last(stack[i])>>)
+GlobUnion ==
+    Mode = "mget" =>
+        NameSet(Glob(hist, cfg.pat)) =
+            UNION {NameSet(Glob(hist, <<cfg.pat[i]>>)) : i \in 1..Len(cfg.pat)}
 
 EmitM == PrintT(<<"MCASE", cfg, hist, state, created,
                  {<<l, lfs[l].k, lfs[l].t>> : l \in DOMAIN lfs \ {<<>>, Top}},
